@@ -318,9 +318,32 @@ def run(tier, seed):
             got = {'type': 0, 'nr': False, 'na': False, 'serial': 0, 'fields': frozenset(), 'bodyT': (),
                    'body': ('exception', '%s: %s' % (type(ex).__name__, str(ex)[:60]))}
         flagged.append((dict(st, raw=tuple(raw), rec=got), m2))
+    # well-framed bytes whose known header fields hold values of another type than prescribed: not messages
+    invalid = []
+    V = refwire.Variant
+    for mtype, good in ((1, {1: V('o', '/p'), 3: V('s', 'M'), 2: V('s', 'a.b'), 6: V('s', ':1.5')}),
+                        (4, {1: V('o', '/p'), 3: V('s', 'M'), 2: V('s', 'a.b')}),
+                        (2, {5: V('u', 7), 6: V('s', ':1.5')}), (3, {4: V('s', 'a.E'), 5: V('u', 7)})):
+        for code in sorted(good):
+            for odd in (V('as', ['x']), V('u', 3) if good[code].sig != 'u' else V('s', 'x'), V('b', True), V('(s)', ['x']), V('ay', [47])):
+                fl = dict(good)
+                fl[code] = odd
+                for le in (True, False):
+                    hdr = refwire.enc('yyyyuua(yv)', [ord('l') if le else ord('B'), mtype, 0, 1, 0, 9, sorted(fl.items())], 0, le)
+                    raw = hdr + b'\0' * ((8 - len(hdr) % 8) % 8)
+                    try:
+                        got = project_parsed(message.parseMessage(raw, []), ())
+                        got = dict(got, fields=frozenset(), body=('accepted', repr(sorted(fl))[:60]))
+                    except Exception as ex:
+                        got = {'type': 0, 'nr': False, 'na': False, 'serial': 0, 'fields': frozenset(), 'bodyT': (),
+                               'body': ('exception', '%s: %s' % (type(ex).__name__, str(ex)[:60]))}
+                    m0 = {'type': mtype, 'nr': False, 'na': False, 'serial': 9, 'fields': (), 'bodyT': (), 'body': ()}
+                    invalid.append(({'c': {'m': m0, 'le': le, 'sigpos': 0}, 'raw': tuple(raw), 'rec': got,
+                                     'ser': {'start': 0, 'after': 0}}, m0))
     cc = 'CONSTANTS\n MTypes = {1}\n'
     for label, batch, pred in (('constructed', own, 'TraceOwn'), ('parsed', parse_tr, 'TraceParse'),
                                ('parsed (undefined flag bits set)', flagged, 'TraceParseAny'),
+                               ('not a message (header field of the wrong type)', invalid, 'TraceParseInvalid'),
                                ('parsed and serialised again', resent, 'TraceResent')):
         traces = [[({'n': 'Init'}, st)] for st, _ in batch]
         rej, stt = core.validate_traces('MC_Message', OBS, traces, {}, cfg_consts=cc, initpred=pred, nproc=12,
